@@ -94,7 +94,7 @@ Proof.
 Qed.
 
 Lemma sden_adj c s a : sden (adj c s) a = xorb c (sden s a).
-Proof. destruct c; simpl; [apply sden_sneg | reflexivity]. Qed.
+Proof. destruct c; simpl; [apply sden_sneg | destruct (sden s a); reflexivity]. Qed.
 
 Lemma s_is_true_eq p : s_is_true p = true -> p = ST.
 Proof. destruct p; simpl; congruence. Qed.
@@ -157,7 +157,7 @@ Proof.
     + exfalso. assert (cnt r a >= 1); [|lia].
       clear -Hin Hp. induction r as [|[q t] r IH]; [destruct Hin|]. rewrite cnt_cons.
       destruct Hin as [[= -> ->]|Hin]; [rewrite Hp; lia | specialize (IH Hin); lia].
-    + simpl. apply IH; auto. lia.
+    + simpl. apply IH; auto; lia.
 Qed.
 
 (* negating every sub negates the node when the primes form a partition *)
@@ -173,17 +173,16 @@ Proof.
   - simpl. apply IH. lia.
 Qed.
 
+Lemma adjsubs_false els : adjsubs false els = els.
+Proof. unfold adjsubs, adj. induction els as [|[p s] r IH]; simpl; auto. f_equal; auto. Qed.
+
 Lemma den_adjsubs c els a : cnt els a = 1 -> den_els (adjsubs c els) a = xorb c (den_els els a).
 Proof.
   destruct c; intros H.
   - apply (den_negsubs els a H).
-  - unfold adjsubs, adj. simpl. rewrite xorb_false_l. f_equal.
-    induction els as [|[p s] r IH]; simpl; auto. f_equal. apply IH.
-    clear. induction r as [|[p s] r IH]; simpl; auto. f_equal; auto.
+  - rewrite adjsubs_false. destruct (den_els els a); reflexivity.
 Qed.
 
-Lemma adjsubs_false els : adjsubs false els = els.
-Proof. unfold adjsubs, adj. induction els as [|[p s] r IH]; simpl; auto. f_equal; auto. Qed.
 
 (* ---- sorting ---- *)
 Lemma insert_el_perm x l : Permutation (insert_el x l) (x :: l).
